@@ -204,6 +204,11 @@ def one_case(ctx, fi, fam, tree, valid=True):
             dict(feats, check="expansion-crash", exception=type(ex).__name__), replay)
         return
     got = to_db(p, srcs)
+    if not uses_nonlinear(fam, tree):
+        # the model (pure calculus) is tied to the implementation on expressions whose definitions use every parameter at most once
+        ctx.case(f"(prim {defs_sexp(fam)} {lterm_sexp(tree_to_l(tree))})", "ok " + show_l(got), {"family": fam.to_json(), "text": text},
+            nontrivial=mentions_composite(fam, tree), key=(fi, text))
+        ctx.evaluations -= 1
     bad = has_redex_or_composite(fam, got)
     if bad:
         ctx.fail(f"primitive() of `{text}` = `{p}` still contains a {bad}", dict(feats, check="not-normal"), replay)
@@ -234,6 +239,55 @@ def one_case(ctx, fi, fam, tree, valid=True):
         return
     if got2 != got:
         ctx.fail(f"expanding `{p}` again changes it to `{p2}`", dict(feats, check="idempotence"), replay)
+
+
+def tree_to_l(t):
+    if t[0] == "op":
+        return ("op", t[1])
+    if t[0] == "p":
+        return ("src", t[1])
+    return ("app", tree_to_l(t[1]), tree_to_l(t[2]))
+
+
+def body_to_l(b, k):
+    if b[0] == "p":
+        return ("var", k - 1 - b[1])
+    if b[0] == "op":
+        return ("op", b[1])
+    return ("app", body_to_l(b[1], k), body_to_l(b[2], k))
+
+
+def lterm_sexp(t):
+    if t[0] in ("op",):
+        return f"(op {t[1]})"
+    if t[0] in ("src", "var"):
+        return f"({t[0]} {t[1]})"
+    if t[0] == "lam":
+        return "(lam " + lterm_sexp(t[1]) + ")"
+    return "(app " + lterm_sexp(t[1]) + " " + lterm_sexp(t[2]) + ")"
+
+
+def defs_sexp(fam):
+    ds = []
+    for n in fam.use_combinators:
+        _, k, body, _, _ = CP.COMBINATORS[n]
+        ds.append(f"({n} {k} {lterm_sexp(body_to_l(body, k))})")
+    for n, ps, r, body in fam.comps:
+        ds.append(f"({n} {len(ps)} {lterm_sexp(body_to_l(body, len(ps)))})")
+    return "(defs " + " ".join(ds) + ")"
+
+
+def show_l(t):
+    """identical to the Lean driver's `LTerm.show`"""
+    if t[0] == "lam":
+        return "(L " + show_l(t[1]) + ")"
+    if t[0] == "app":
+        return "(" + show_l(t[1]) + " " + show_l(t[2]) + ")"
+    if t[0] == "var":
+        return f"#{t[1]}"
+    if t[0] == "src":
+        return f"s{t[1]}"
+    return str(t[1])
 
 
 def show(t):
